@@ -7,6 +7,7 @@ pub mod report;
 pub mod rng;
 pub mod sched;
 pub mod storemodel;
+pub mod trk;
 pub mod votingref;
 pub mod watchdog;
 
